@@ -602,6 +602,12 @@ class Interp:
             return num(1)
         if name == 'jnp.equal':
             return Bc(('eq', to_S(a[0]).t, to_S(a[1]).t))
+        if name == 'jax.tree_util.tree_map':
+            # tree_map(f, t1, t2, ...) on leaves (scalars / vectors) or on tuples of leaves
+            f, rest = a[0], list(a[1:])
+            if rest and all(isinstance(x, tuple) for x in rest):
+                return tuple(self.call_fn(f, list(xs), node) for xs in zip(*rest))
+            return self.call_fn(f, rest, node)
         if name == 'jnp.where':
             c = a[0]
             if not isinstance(c, Bc):
